@@ -46,22 +46,22 @@ texts = {
 notes = {
  "C19": "Trusted: the contract model (cliref, ~60 lines). /dev/full is used as a destination only (as a source it is an endless stream). Situations the property leaves undefined are spawned for crash-freedom only.",
  "C08": "Trusted: the strict COFF reader (written from the specification), debug/pe as a second reader.",
- "C09": "Known finding: [FILE] names longer than 18 bytes are truncated. Fixed: duplicate GLOBAL names.",
+ "C09": "No known finding is left. Repaired: duplicate GLOBAL names, [FILE] names longer than 18 bytes.",
  "C10": "Map iteration order and the clock are not controlled choice points (stated in the evidence); 5 fresh CLI processes per program are an auxiliary smoke test. Global state is observed through overlay-injected read-only dumpers; if they fail to build against an edited tree the check falls back to output comparison only.",
- "C07": "Validity of x86 forms is not modelled in full: accepted statements whose bytes the reference decoder cannot read are counted (accepted_unknown_encoding) and not judged further. Known findings: operand-less opcode table (pinned by a repository test), 32-bit branch targets in 16-bit mode, leading newline + unparsable first line. Repaired: segment registers as general registers, DB/DW/DD without operands, [undefined] = 0, GLOBAL of an undefined name.",
+ "C07": "Validity of x86 forms is not modelled in full: accepted statements whose bytes the reference decoder cannot read are counted (accepted_unknown_encoding) and not judged further. No known finding is left (the last one, rel32 Jcc/CALL without 66h in 16-bit code, went with the branch-relaxation repair 357686f).",
  "C13": "Byte strings are exhaustive only to length 2/3; timing oracle is an envelope, not a bound. Crashes are re-confirmed through the real CLI before being reported.",
- "C11": "Differential; the inlined program is the reference.",
- "C12": "Differential; the canonical layout is the reference. Known findings: a label that is the first statement of the file cannot be preceded by indentation, a comment line (parse error) or a blank line (whole file silently ignored).",
+ "C11": "Differential; the inlined program is the reference. Uses of a name before its definition are refused by gosk for every kind of EQU and are outside the space.",
+ "C12": "Differential; the canonical layout is the reference. No known finding is left (first-statement labels behind blank lines/comments/indentation repaired by cd8352b).",
  "C14": "Differential; single-statement assembly under the same BITS header is the reference.",
  "C15": "Differential; names restricted to [A-Za-z0-9_] as the property's quantifier states (a dotted name breaks text/template label substitution but is outside the quantifier).",
  "C06": "Trusted: the reference evaluator (math/big), DD/DB/DW emission (C05), x86ref for immediates/displacements. Values leaving int64 are not judged.",
  "C16": "Trusted: sentinel framing, the layout of the test programs (absolute fields directly after sentinels; MOV r16,imm16 = opcode+iw).",
  "C17": "Differential: single-mode assembly is the reference (its correctness is C01's). The former finding C17-F01 (emission used the last BITS of the file) was repaired by 791856e; no known finding is left.",
- "C03": "Trusted: sentinel framing (DB path verified by C05), x86ref decoder for instruction uses, the worker's view of pass-1 SymTable/LOC. Known finding: branch sizing (pass 1 sizes by mode, codegen emits by distance). Repaired: [lab] in memory operands, PUSH/POP FS/GS, INT 3, MOV CRn, PUSH imm16, IMUL imm, 32-bit addressing sizes.",
- "C04": "Trusted: x86ref decoder, sentinel framing. The branch machinery of the pinned tree is wrong in most cells outside short label-target jumps in 16-bit mode; those cells are listed as known findings by (mode, class, direction, target kind, gap) with exact deviations.",
+ "C03": "Trusted: sentinel framing (DB path verified by C05), x86ref decoder for instruction uses, the worker's view of pass-1 SymTable/LOC. No known finding is left: branch sizing (pass 1 sized by mode, codegen emitted by distance) was repaired by 357686f; the additive defect model that went with it has an empty table.",
+ "C04": "Trusted: x86ref decoder, sentinel framing. No known finding is left: the 78 cells of the former branch-sizing findings were repaired by 357686f (relaxation in pass 1, form carried to codegen); scenario interacting_branches covers growth cascades between 2-3 branches.",
  "C02": "Trusted: x86ref decoder and MemSpec linear-form comparison. Displacements that do not fit the address width are outside the model. No known finding is left: the five defects found in calculateModRM (index-only, EBP base without displacement, 16-bit registers under BITS 32, zero SIB byte, mixed register widths) were repaired.",
  "C18": "Trusted: x86ref encoder/decoder pair (26k pairs self-checked per run). Only statements that decode to the source instruction are judged.",
- "C01": "Trusted: x86ref decoder (written from the SDM opcode maps; self-checked; cross-checked against objdump where present). Statements gosk refuses with an error are not judged (DESIGN.md section 5). Known findings: the operand-less opcode table (pinned by a repository test).",
+ "C01": "Trusted: x86ref decoder (written from the SDM opcode maps; self-checked; cross-checked against objdump where present). Statements gosk refuses with an error are not judged (DESIGN.md section 5). No known finding is left.",
  "C05": "Trusted: the directive reference model (a few lines per directive), sentinel DB lines (members of the explored space), worker = cmd/gosk pipeline (gen.Parse + frontend.Exec), re-confirmed through the real CLI for every reported failure.",
 }
 na = {}
@@ -95,7 +95,7 @@ def main():
      "engines":[{"name":"verifengine","path":"engine/","serves_properties":sorted(claimed),"kind_free_text":"hand-written stateless choice-tree DFS explorer (replay-based, deviation-bounded) + BFS history explorer, driving worker subprocesses that run the real gosk pipeline"}],
      "checks":checks,
      "not_applicable":not_app,
-     "notes":"Known findings: known_findings.jsonl. fix: commits in /repo: "+"; ".join(f for f in fixes if " fix:" in f)
+     "notes":"known_findings.jsonl holds fixed entries only (no finding is left). fix: commits in /repo: "+"; ".join(f for f in fixes if " fix:" in f)
     }
     json.dump(m,open("MANIFEST.json","w"),indent=1)
 main()
